@@ -155,7 +155,20 @@ def _pe_one(c):
       E[2 * K, :K] = eta * dsig
       exp[j] = E
     close(f'matrix:eta{eta}', M, exp, sc)
-  # (d) resolvent identity, every strategy, both signs of eta
+  # (d) resolvent identity, every strategy, both signs of eta.  "Returns x to rounding": the forward error of a
+  # backward-stable solve is rounding times the condition number of the operator, which the harness takes
+  # from the spec's own block matrix (largest over the total wavenumbers of the grid)
+  def spec_cond(eta):
+    n = 2 * K + 1
+    worst = 1.0
+    for j in range(mshape[1]):
+      E = np.eye(n)
+      E[:K, K:2 * K] = eta * lam_spec[j] * Rgas * G
+      E[:K, 2 * K] = eta * lam_spec[j] * Rgas * tref
+      E[K:2 * K, :K] = eta * H
+      E[2 * K, :K] = eta * dsig
+      worst = max(worst, float(np.linalg.cond(E)))
+    return worst
   rs = np.random.RandomState(1234)
   fields = {
       'all': (1, 1, 1), 'div': (1, 0, 0), 'temp': (0, 1, 0), 'lnps': (0, 0, 1)}
@@ -167,6 +180,7 @@ def _pe_one(c):
     x = pe.State(jnp.asarray(vort), jnp.asarray(fd * base_d), jnp.asarray(ft * base_t),
                  jnp.asarray(fp * base_p), {'q': jnp.asarray(vort * 2)})
     for eta in c.get('etas', (0.25, -0.25, 2.0, -1.5)):
+      budget = max(2e-9, 512 * 2.220446049250313e-16 * spec_cond(eta) * 4.0)
       for vm, eq in eqs.items():
         Lx = eq.implicit_terms(x)
         y = jax.tree_util.tree_map(lambda a, b: a - eta * b, x, Lx)
@@ -175,8 +189,8 @@ def _pe_one(c):
           for f in ('divergence', 'temperature_variation', 'log_surface_pressure'):
             got, exp = np.asarray(getattr(z, f)), np.asarray(getattr(x, f))
             err = np.max(np.abs(got - exp)) if np.all(np.isfinite(got)) else np.inf
-            if not err <= 2e-9:
-              bad(f'resolvent:{method}:{vm}', f'{fname} eta={eta}: {f} max error {err:.3e}')
+            if not err <= budget:
+              bad(f'resolvent:{method}:{vm}', f'{fname} eta={eta}: {f} max error {err:.3e} (budget {budget:.1e})')
           if np.any(np.asarray(z.vorticity) != np.asarray(x.vorticity)) or \
              np.any(np.asarray(z.tracers['q']) != np.asarray(x.tracers['q'])):
             bad(f'resolvent:passthrough:{method}', 'vorticity/tracers changed by the solve')
@@ -188,8 +202,8 @@ def _pe_one(c):
       z = rev.implicit_inverse(y, eta)
       for f in ('divergence', 'temperature_variation', 'log_surface_pressure'):
         err = np.max(np.abs(np.asarray(getattr(z, f)) - np.asarray(getattr(x, f))))
-        if not err <= 2e-9:
-          bad('resolvent:time_reversed', f'{fname} eta={eta}: {f} max error {err:.3e}')
+        if not err <= budget:
+          bad('resolvent:time_reversed', f'{fname} eta={eta}: {f} max error {err:.3e} (budget {budget:.1e})')
   return out
 
 
